@@ -18,6 +18,7 @@ LEVEL_TEXT = (
     "service calls split parameters the same way"
     "; an option is split off an outgoing call only when it has the option's type (table over value types for the three siblings); legacy and new @service register exactly the declared names (none, one, several, repeated), remove exactly those, and roll back when a later name is refused or the decorator set fails"
     '; run-time declared services stay reachable for removal (manager recorded before start, single owner); count and owner are kept per Home Assistant service, not per spelling'
+    '; stopping a context reaches functions still queued for start; service.call delivers fields named like its own parameters; response-only services are recognised by equality; built-in names are refused case-insensitively; a registered legacy name is recorded before anything can fail'
 )
 LEVEL_NOTE = "the finite model covers the count guards exhaustively (guards compare with 0/1 only); Home Assistant's service registry is trusted"
 TECHNIQUE = "abstract interpretation of the transition functions on an exhaustive finite model (decision table), sibling agreement of registration sites and of parameter-splitting implementations"
